@@ -83,6 +83,17 @@ Theorem C18_thread_partial : forall raises ls e,
   /\ e = first_raised raises ls.
 Proof. exact thread_partial. Qed.
 
+(** close() returns only after all registered threads have ended and been called back (same hypothesis) *)
+Theorem C18_close_waits_partial : forall raises ls e,
+  no_overlap raises ls = true -> In e (close_results raises ls) ->
+  forall t, In t (registered raises ls) -> In t (called raises ls) /\ In t (ended raises ls).
+Proof. exact close_waits_partial. Qed.
+
+(** close() re-raises exactly the first callback exception, or returns normally if none (same hypothesis) *)
+Theorem C18_exception_reraised_partial : forall raises ls e,
+  no_overlap raises ls = true -> In e (close_results raises ls) -> e = first_raised raises ls.
+Proof. exact exception_reraised_partial. Qed.
+
 Theorem C18_no_iteration_error_partial : forall raises ls e,
   no_overlap raises ls = true -> In e (monitor_exits raises ls) -> e = first_raised raises ls.
 Proof. exact no_iteration_error_partial. Qed.
@@ -125,6 +136,8 @@ Print Assumptions C18_refuted_exit_race.
 Print Assumptions C18_refuted_exception_lost.
 Print Assumptions C18_thread_statement_false.
 Print Assumptions C18_thread_partial.
+Print Assumptions C18_close_waits_partial.
+Print Assumptions C18_exception_reraised_partial.
 Print Assumptions C18_no_iteration_error_partial.
 Print Assumptions C18_task_exactly_once.
 Print Assumptions C18_task_close_waits.
